@@ -289,6 +289,14 @@ A(M("diag-helper-copy-silent", ["C18", "C15"], "tertiary_v2.py", None, None, kin
 A(M("diag-sorted-silent", ["C05", "C03"], "annotator.py", "f\"Checking pair {residue_i.full_name} {atom_i.name} - {residue_j.full_name} {atom_j.name}\"", "f\"Checking pair {residue_i.full_name} {atom_i.name} - {residue_j.full_name} {atom_j.name} after {len(used_atoms)} used atoms, e.g. {sorted(a.name for a in used_atoms)[:3]}\"", kind="silent"))
 A(M("diag-defaultdict-read", "C07", C, "        used = set()\n\n        for i in range(len(loop_candidates)):", "        logging.debug(f\"first candidate has {len(graph[0])} successors\")\n        used = set()\n\n        for i in range(len(loop_candidates)):", "diagnostic-purity"))
 A(M("diag-defaultdict-own-keys-silent", "C07", C, "        used = set()\n\n        for i in range(len(loop_candidates)):", "        logging.debug(f\"successors: {[len(graph[k]) for k in graph]}, first: {len(graph[0]) if 0 in graph else 0}, {len(graph.get(0, ()))}\")\n        used = set()\n\n        for i in range(len(loop_candidates)):", kind="silent"))
+# round 7: helpers extracted from the linking and the walk (C07-r10), stem runs by break positions with a nested predicate (C07-r11)
+B710, B711 = dict(base="C07-r10"), dict(base="C07-r11")
+A(M("c07-r10-link-first", "C07", C, "            if self.entries[strand_i.last - 1].pair == strand_j.first:\n                successors[i].add(j)\n", "            if self.entries[strand_i.first - 1].pair == strand_j.first:\n                successors[i].add(j)\n", ["elements-eval-loops", "elements-eval-coverage", "elements-links-fact"], **B710))
+A(M("c07-r10-link-offset", "C07", C, "            if self.entries[strand_j.last - 1].pair == strand_i.first:\n", "            if self.entries[strand_j.last].pair == strand_i.first:\n", ["index-discipline", "elements-eval-loops", "elements-eval-coverage"], **B710))
+A(M("c07-r10-chain-only-silent", "C07", C, "                if strands[j] not in used and strands[j] not in chain\n", "                if not (strands[j] in used or strands[j] in chain)\n", kind="silent", **B710))
+A(M("c07-r11-stacked-plus", ["C01", "C07"], C, "            return i == k + 1 and j == l - 1\n", "            return i == k + 1 and j == l + 1\n", ["stems-run-fact", "elements-eval-stems", "stems-run"], **B711))
+A(M("c07-r11-begins-from-one", ["C01", "C07"], C, "        begins = [0] + [\n            n for n in range(1, len(paired)) if not stacked(paired[n - 1], paired[n])\n        ]", "        begins = [0] + [\n            n for n in range(2, len(paired)) if not stacked(paired[n - 1], paired[n])\n        ]", ["stems-run-fact", "elements-eval-stems", "stems-run"], **B711))
+A(M("c07-r11-keyword-call-silent", ["C01", "C07"], C, "n for n in range(1, len(paired)) if not stacked(paired[n - 1], paired[n])", "n for n in range(1, len(paired)) if not stacked(previous=paired[n - 1], entry=paired[n])", kind="silent", **B711))
 # C05 contact-visit-order (F23)
 A(M("c05-visit-order-unsorted", "C05", "annotator.py", "for i, j in sorted(kdtree.query_pairs(HYDROGEN_BOND_MAX_DISTANCE)):", "for i, j in kdtree.query_pairs(HYDROGEN_BOND_MAX_DISTANCE):", "contact-visit-order"))
 A(M("c05-visit-order-list", "C05", "annotator.py", "for i, j in sorted(kdtree.query_pairs(HYDROGEN_BOND_MAX_DISTANCE)):", "for i, j in list(kdtree.query_pairs(HYDROGEN_BOND_MAX_DISTANCE)):", "contact-visit-order"))
